@@ -615,6 +615,48 @@ def analyse(prog: Program):
                                       "what": f"`{ast.unparse(hit)[:60]}` is (a view of) an array kept in a table that outlives the call, and it becomes the "
                                               "result: the next call with the same key writes into the array this caller still holds",
                                       "key": "", "value": ast.unparse(n.value)[:120]})
+    # (d) an explicit Dask name is a key into the one table every computation shares -- the task graph: two collections with the
+    #     same name are the same task to the scheduler, so everything the task is built from must be determined by the name
+    res["graph_names"] = []
+    for fi, mi in outer:
+        if not isinstance(fi.node, (ast.FunctionDef, ast.AsyncFunctionDef)):
+            continue
+        sl = None
+        for n in ast.walk(fi.node):
+            if not isinstance(n, ast.Call):
+                continue
+            kws = {k.arg: k.value for k in n.keywords if k.arg}
+            key = None
+            if "dask_key_name" in kws:
+                key = kws["dask_key_name"]
+            elif "name" in kws and not (isinstance(kws["name"], ast.Constant) and kws["name"].value in (None, False)):
+                d_ = _dotted(n.func) or ""
+                root_ = mi.imports.get(d_.split(".")[0], "") if d_ else ""
+                if root_.startswith("dask") or d_.split(".")[-1] in ("from_delayed", "from_array", "map_blocks", "blockwise", "from_map"):
+                    key = kws["name"]
+            if key is None:
+                continue
+            if sl is None:
+                sl = Slice(fi.node, package_methods=pkg_methods)
+            ka = sl.atoms(key, n.lineno)
+            va = set()
+            for a in list(n.args) + [v for k_, v in kws.items() if k_ not in ("name", "dask_key_name", "dtype", "shape", "meta", "chunks", "pure", "nout", "traverse")]:
+                va |= sl.atoms(a.value if isinstance(a, ast.Starred) else a, n.lineno)
+            res["graph_names"].append({"function": fi.where, "line": n.lineno, "name": ast.unparse(key)[:100]})
+            if isinstance(key, ast.Constant):
+                if va:
+                    res["violations"].append({"kind": "graph", "table": "(Dask task graph)", "function": fi, "lineno": n.lineno,
+                                              "what": f"the task is given the fixed name {key.value!r} but is built from {sorted(_fmt(_trunc(a)) for a in va)[:4]}: "
+                                                      "every call produces the same graph key for different work", "key": ast.unparse(key)[:80], "value": ast.unparse(n)[:120]})
+                continue
+            reasons = []
+            for a in sorted(va, key=lambda a: (a[0], a[1])):
+                why = covered(a, ka, storage, fi.cls)
+                if why:
+                    reasons.append(why)
+            for why in dict.fromkeys(reasons):
+                res["violations"].append({"kind": "graph", "table": "(Dask task graph)", "function": fi, "lineno": n.lineno, "what": why + " (explicit Dask name)",
+                                          "key": ast.unparse(key)[:80], "value": ast.unparse(n)[:120]})
     for tr, st in tables.items():
         res["tables"].append({"table": ".".join(x for x in tr if x), "line": st.lineno, "filled_in_functions": tr in filled})
 
@@ -763,7 +805,8 @@ def check(run, prog: Program, pid, rule="RM"):
         seen.add(k)
         run.ob(rule, f"{fi.module.replace('.', '/')}.py:{v['lineno']} {fi.qualname}", f"{v['table']}[{v['key']}] = {v['value']}"[:200],
                "a table that outlives the call is keyed by everything its entries were computed from, and hands out copies" if v["kind"] == "key"
-               else ("a scratch array that outlives the call never becomes (part of) a result" if v["kind"] == "shared"
+               else ("an explicit Dask name (a key of the shared task graph) determines everything the task is built from" if v["kind"] == "graph"
+                     else "a scratch array that outlives the call never becomes (part of) a result" if v["kind"] == "shared"
                      else "an object kept in a process-lifetime cache is not handed to callers who may change it"), False, found=v["what"], nontrivial=True)
     if not mine:
         n_t = sum(1 for t in res["tables"] if t["filled_in_functions"])
